@@ -94,6 +94,7 @@ coap_cache_derive_key_w_ignore(const coap_session_t *session,
   coap_digest_ctx_t *dctx;
   coap_digest_t digest;
   coap_cache_key_t *cache_key;
+  uint8_t code;
 
   if (!coap_option_iterator_init(pdu, &opt_iter, COAP_OPT_ALL)) {
     return NULL;
@@ -106,6 +107,33 @@ coap_cache_derive_key_w_ignore(const coap_session_t *session,
   if (session_based == COAP_CACHE_IS_SESSION_BASED) {
     /* Include the session ptr */
     if (!coap_digest_update(dctx, (const uint8_t *)&session, sizeof(session))) {
+      goto update_fail;
+    }
+  }
+  /* The request method is part of the cache key (RFC 7252 5.6): a GET and
+   * a FETCH with the same options are different requests */
+  code = (uint8_t)pdu->code;
+  if (!coap_digest_update(dctx, &code, sizeof(code))) {
+    goto update_fail;
+  }
+  /* The body of a FETCH payload is part of the cache key,
+   * see https://rfc-editor.org/rfc/rfc8132#section-2
+   * It is digested with its length and ahead of the options so that no
+   * payload can be mistaken for (the digest input of) further options */
+  if (pdu->code == COAP_REQUEST_CODE_FETCH) {
+    size_t len = 0;
+    const uint8_t *data = NULL;
+    uint32_t data_length;
+
+    if (!coap_get_data(pdu, &len, &data)) {
+      len = 0;
+    }
+    data_length = (uint32_t)len;
+    if (!coap_digest_update(dctx, (const uint8_t *)&data_length,
+                            sizeof(data_length))) {
+      goto update_fail;
+    }
+    if (len > 0 && !coap_digest_update(dctx, data, len)) {
       goto update_fail;
     }
   }
@@ -126,18 +154,6 @@ coap_cache_derive_key_w_ignore(const coap_session_t *session,
       }
       if (!coap_digest_update(dctx, coap_opt_value(option),
                               coap_opt_length(option))) {
-        goto update_fail;
-      }
-    }
-  }
-
-  /* The body of a FETCH payload is part of the cache key,
-   * see https://rfc-editor.org/rfc/rfc8132#section-2 */
-  if (pdu->code == COAP_REQUEST_CODE_FETCH) {
-    size_t len;
-    const uint8_t *data;
-    if (coap_get_data(pdu, &len, &data)) {
-      if (!coap_digest_update(dctx, data, len)) {
         goto update_fail;
       }
     }
